@@ -226,6 +226,16 @@ Theorem C09_check_ok_sound : forall line cs c tag pos diag,
 Proof. exact check_ok_sound. Qed.
 Print Assumptions C09_check_ok_sound.
 
+(* stats_ok also records that the case is a legal Sample (check_case refuses others as malformed), which discharges the
+   premises of its weighted-Mean and Bounds clauses: the weighted Mean is compared whenever some weight is non-zero
+   (total weight 0 is the one case that is NOT compared: the code returns 0 there), Bounds always *)
+Theorem C09_check_ok_weighted_mean_bounds : forall sorted hasw xs ws o, stats_ok sorted hasw xs ws o ->
+  (hasw = true -> xs <> [] -> (exists w, In w ws /\ ~ w == 0) ->
+     sm_st o = 0%Z /\ obs_near (tol_wmean xs) (wmean_def (combine xs ws)) (sm_mean o)) /\
+  bounds_ok (if hasw then used (combine xs ws) else xs) (s_bmin o) (s_bmax o).
+Proof. exact stats_ok_closed. Qed.
+Print Assumptions C09_check_ok_weighted_mean_bounds.
+
 (* the parts of case_ok for histories: one query; the whole run (relative to the model store) *)
 Theorem C09_compare_query_sound : forall s mst m sm w b1 b2 vst v,
   query_ok s mst m sm w b1 b2 vst v = None -> query_obs_ok s mst m sm w b1 b2 vst v.
